@@ -13,7 +13,8 @@ CONSTANT Configs      \* sequence of [rows |-> dc, cols |-> dc] records
 VARIABLE cfg          \* the configuration in force (a member of Configs; field idx = its
                       \* 1-based position there, echoed to the replayer)
 
-NoOrder == [type |-> "payload", ids |-> << >>]
+NoOrder == [type |-> "payload", ids |-> << >>, measure |-> "", marginal |-> "", eid |-> 0,
+            iid |-> 0, dir |-> "descending", top |-> << >>, bottom |-> << >>]
 DefaultDC == [vins |-> << >>, hasx |-> FALSE, xins |-> << >>, hide |-> {},
               prune |-> FALSE, order |-> NoOrder]
 DefaultConfig == [idx |-> 1, rows |-> DefaultDC, cols |-> DefaultDC]
